@@ -20,7 +20,7 @@ def c08_gen(tier, seed):
 def c08_cfg(tier):
     if tier == "quick":
         return dict(count=14, size=5, depth=2, child_depth=2, tape=5)
-    return dict(count=60, size=7, depth=3, child_depth=2, tape=8)
+    return dict(count=30, size=6, depth=3, child_depth=2, tape=6)
 
 
 def ir_gen(agents_c, out_name, specs, immutable=None, immutable_offsets=None, opt="-O1", extra_defs=()):
